@@ -236,6 +236,9 @@ def run(ctx, out, tier):
     bodies = ctx.reachable_bodies()
     shared.sh_err(ctx, out, bodies, floor=300)
     shared.sh_main(ctx, out)
+    shared.sh_traverse(ctx, out)
+    from rules.C01 import check_skipfile
+    check_skipfile(ctx, out, rule="C12.skipfile")
     return meta()
 
 
